@@ -19,7 +19,7 @@
 (* Non-blocking: a mismatch goes into the register `bad`, validation goes on.*)
 EXTENDS SliceSession, Json, IOUtils
 Rec == ndJsonDeserialize(IOEnv.TRACE)
-VARIABLES l, bad
+VARIABLES l, bad, hits      \* hits: number of lines whose relation had a true premise (vacuity guard)
 
 \* ---------------------------------------------------------------- C02: full agreement with the reference
 Verdict(e) == IF e.flt = None THEN ParseVerdict(e.buf, e.sh)
@@ -140,9 +140,21 @@ Matches(e) == CASE e.op = "parse"     -> ParseOk(e)
                 [] e.op = "zstr"      -> ZStrOk(e)
                 [] e.op = "ids"       -> IdsOk(e)
                 [] OTHER              -> FALSE
-Init == l = 1 /\ bad = <<>>
-Next == l <= Len(Rec) /\ l' = l + 1 /\ bad' = IF Matches(Rec[l]) THEN bad ELSE Append(bad, l)
-Spec == Init /\ [][Next]_<<l, bad>>
+\* the premise under which a line's relation says anything at all (TRUE for relations without premise)
+Premise(e) == CASE e.op = "round"     -> WellFormed(e.m)
+                [] e.op = "prefixes"  -> LET d == ParseVerdict(e.full, e.sh) IN d.v = "msg" /\ d.consumed = Len(e.full)
+                [] e.op = "junkparse" -> PatternFreeBefore(e.junk, e.msg) /\ e.b.v \in {"msg", "filtered"}
+                [] e.op = "recover"   -> \A i \in 1..Len(e.parts) : PatternFreeBefore(e.parts[i].junk, e.parts[i].msg) /\ e.parts[i].alone.v = "msg"
+                [] e.op = "filter"    -> e.res0.v = "msg" /\ WellFormed(e.res0.m)
+                [] e.op = "stable"    -> Len(e.b2) = DeclaredLen(e.b2, e.sh)
+                [] e.op = "ids"       -> ParseVerdict(e.buf, e.sh).v = "msg"
+                [] e.op \in {"frame", "session"} -> (IF e.op = "frame" THEN e.res.v ELSE e.steps[1].res.v) \in {"msg", "filtered", "skipped"}
+                [] OTHER -> TRUE
+Init == l = 1 /\ bad = <<>> /\ hits = 0
+Next == /\ l <= Len(Rec) /\ l' = l + 1
+        /\ bad' = (IF Matches(Rec[l]) THEN bad ELSE Append(bad, l))
+        /\ hits' = (IF Premise(Rec[l]) THEN hits + 1 ELSE hits)
+Spec == Init /\ [][Next]_<<l, bad, hits>>
 \* what the model says for a mismatching line (kept short: class and numbers only)
 ModelSays(e) ==
   CASE e.op = "parse" -> LET d == Verdict(e) IN <<d.v, IF d.v \in {"msg", "filtered"} THEN d.consumed ELSE 0>>
@@ -152,6 +164,7 @@ ModelSays(e) ==
     [] e.op = "frame" -> <<"frame-end", FrameOf(e.buf, e.sh, e.api).end>>
     [] OTHER -> <<"-", 0>>
 Report == (l = Len(Rec) + 1) => /\ \A i \in 1..Len(bad) : PrintT(<<"MISMATCH", bad[i], Rec[bad[i]].op, ModelSays(Rec[bad[i]])>>)
+                                /\ PrintT(<<"PREMISE", hits>>)
                                 /\ PrintT(<<"SUMMARY", Len(Rec), Len(bad)>>)
 Accepted == TLCGet("stats").diameter - 1 = Len(Rec)
 =============================================================================
